@@ -312,6 +312,55 @@ def run_case(case):
         if multi and any(paths[t][x] >= 2 for x in populated):
             res.nontrivial = True
             res.stats['queries_with_multipath_match'] += 1
+    # ---- the universal bases: every component is an instance of the
+    # harness root class and of object, every processor of desper.Processor
+    for label, T in (('CRoot', CRoot), ('object', object)):
+        want = collections.Counter((e, c.uid) for e, row in comps
+                                   for c in row.values())
+        try:
+            got = collections.Counter((e, c.uid) for e, c in w.get(T))
+            res.stats['queries_checked'] += 1
+            res.stats['universal_base_queries'] += 1
+            if got != want:
+                fail('get-multiplicity', f'get({label}) does not list every '
+                     'component exactly once',
+                     sorted(map(str, want.elements())),
+                     sorted(map(str, got.elements())), -1)
+                return _fin(res)
+            for e, row in comps[:2]:
+                sentinel = object()
+                one = w.get_component(e, T, sentinel)
+                has = w.has_component(e, T)
+                if has != bool(row) or not (
+                        any(one is c for c in row.values()) if row
+                        else one is sentinel):
+                    fail('get_component', f'has_component/get_component('
+                         f'{e}, {label})', [c.uid for c in row.values()],
+                         [has, getattr(one, 'uid', repr(one))], -1)
+                    return _fin(res)
+                w2, comps2, procs2 = build_world()
+                e2, row2 = comps2[[x[0] for x in comps].index(e)]
+                removed = w2.remove_component(e2, T)
+                left = [c.uid for c in w2.get_components(e2)]
+                if not any(removed is c for c in row2.values()) \
+                        or sorted(left + [removed.uid], key=str) != sorted(
+                            (c.uid for c in row2.values()), key=str):
+                    fail('remove_component', f'remove_component({e}, '
+                         f'{label})', 'exactly one component detached',
+                         {'returned': getattr(removed, 'uid', repr(removed)),
+                          'left': left}, -1)
+                    return _fin(res)
+            one = w.get_processor(T) if T is object \
+                else w.get_processor(desper.Processor)
+            if not (any(one is q for q in procs.values()) if procs
+                    else one is None):
+                fail('get_processor', f'get_processor({label}/Processor)',
+                     sorted(procs), getattr(one, 'uid', repr(one)), -1)
+                return _fin(res)
+        except Exception as ex:
+            fail('query-raised', f'a query by {label} raised', None,
+                 repr(ex), -1)
+            return _fin(res)
     # ---- churn: attach / replace / detach components after the queries
     # above, then every get(T) again (query results must not go stale)
     for ei, k in case.get('churn', []):
